@@ -204,9 +204,16 @@ def instance(draw, quick):
 
 
 def replay(ctx, case):
+    if case.get("kind") == "wiring":
+        from . import wiring
+
+        return wiring.check_wiring(ctx, case)
     return check_instance(ctx, case)
 
 
 def run(ctx):
     q = ctx.quick
     ctx.hyp("kernels", instance(q), check_instance, 150 if q else 600)
+    from . import wiring
+
+    ctx.hyp("wiring", wiring.wiring_case("call"), wiring.check_wiring, 10 if q else 40)
